@@ -1,6 +1,6 @@
 reg("C17", "automatic model fitting returns a usable, constraint-abiding model or reports failure",
     parts=[dict(harness="c17_fit", cases=dict(quick=480, thorough=6000), timeout_case=900)],
-    rule="the first 16 case indices replay one fixed, seed-independent scenario per open finding (plus a control); every other case = (source in {variogram computed from a harness-simulated data set, hand-made Vario through the public "
+    rule="the first 17 case indices replay one fixed, seed-independent scenario per open finding (plus a control); every other case = (source in {variogram computed from a harness-simulated data set, hand-made Vario through the public "
          "setters, variogram map}, ndim 1-3, nvar 1-3, 1-4 directions, pathology in {none, noisy, non-monotone, empty lags, "
          "pure nugget, all-zero, huge, tiny, few pairs}, 1-4 basic structures from the types offered for the dimension, "
          "constraint class in {none, ConsItem boxes/equalities on SILL/RANGE/ANGLE/PARAM, contradictory box, constant total sill}, "
